@@ -1,3 +1,474 @@
 package main
 
-func dispatch2(mode string, args []string) bool { return false }
+import (
+	"bufio"
+	"encoding/json"
+	"fmt"
+	"math/rand"
+	"os"
+	"sort"
+	"strings"
+
+	"verif/harness/vapp"
+)
+
+// ReplicaEvent is one line of a Replica_Trace trace.
+type ReplicaEvent struct {
+	T        int     `json:"t"`
+	Node     string  `json:"node"`
+	Ev       string  `json:"ev"`
+	H        int64   `json:"h"`
+	Vals     string  `json:"vals,omitempty"`
+	Res      *ResRec `json:"res,omitempty"`
+	InfoH    int64   `json:"info_h"`
+	InfoHash string  `json:"info_hash"`
+	WantH    int64   `json:"want_h"`
+	WantHash string  `json:"want_hash"`
+}
+
+type ResRec struct {
+	Hash string `json:"hash"`
+	Upd  string `json:"upd"`
+	Txs  string `json:"txs"`
+}
+
+func updString(us []vapp.NUpdate) string {
+	var p []string
+	for _, u := range us {
+		p = append(p, fmt.Sprintf("%s:%d", u.V, u.Power))
+	}
+	return strings.Join(p, ",")
+}
+
+func txString(rs []vapp.TxResult, keep func(i int) bool) string {
+	var p []string
+	for i, r := range rs {
+		if keep != nil && !keep(i) {
+			continue
+		}
+		p = append(p, fmt.Sprintf("%d/%s/%d/%d", r.Code, r.Data, r.GasUsed, r.GasWanted))
+	}
+	return strings.Join(p, ";")
+}
+
+// events of one execution; keep selects the transaction results that are compared
+func replicaEvents(t int, node string, tr *vapp.Transcript, keep func(h int64, i int) bool) []ReplicaEvent {
+	evs := []ReplicaEvent{{T: t, Node: node, Ev: "Init", Vals: updString(tr.InitVals)}}
+	for _, b := range tr.Blocks {
+		for _, e := range b.Events {
+			if e.Type == "verif_restart" {
+				var ih, wh int64
+				fmt.Sscan(e.Attrs["info_height"], &ih)
+				fmt.Sscan(e.Attrs["want_height"], &wh)
+				evs = append(evs, ReplicaEvent{T: t, Node: node, Ev: "Restart", H: b.H, InfoH: ih, InfoHash: e.Attrs["info_hash"], WantH: wh, WantHash: e.Attrs["want_hash"]})
+			}
+		}
+		if b.Hash == "" {
+			continue // the execution ended inside this block
+		}
+		var k func(i int) bool
+		if keep != nil {
+			h := b.H
+			k = func(i int) bool { return keep(h, i) }
+		}
+		evs = append(evs, ReplicaEvent{T: t, Node: node, Ev: "Block", H: b.H, Res: &ResRec{Hash: b.Hash, Upd: updString(b.Updates), Txs: txString(b.Results, k)}})
+	}
+	return evs
+}
+
+type traceWriter struct {
+	f   *os.File
+	w   *bufio.Writer
+	enc *json.Encoder
+	n   int
+}
+
+func newTraceWriter(path string) *traceWriter {
+	f, err := os.Create(path)
+	if err != nil {
+		fmt.Fprintln(os.Stderr, err)
+		os.Exit(2)
+	}
+	w := bufio.NewWriter(f)
+	return &traceWriter{f: f, w: w, enc: json.NewEncoder(w)}
+}
+
+func (t *traceWriter) write(evs []ReplicaEvent) {
+	for _, e := range evs {
+		_ = t.enc.Encode(e)
+		t.n++
+	}
+}
+
+func (t *traceWriter) close() { t.w.Flush(); t.f.Close() }
+
+type twin struct {
+	name string
+	opts vapp.RunOpts
+}
+
+// group: one scenario, its reference execution and its twins
+type group struct {
+	sc    *vapp.Scenario
+	ref   *vapp.Transcript
+	twins []*vapp.Transcript
+	names []string
+	descr []string
+	err   error
+}
+
+func loadScenarios(c *common) []*vapp.Scenario {
+	if c.scen == "" {
+		return nil
+	}
+	var given []*vapp.Scenario
+	data, err := os.ReadFile(c.scen)
+	if err != nil || json.Unmarshal(data, &given) != nil {
+		fmt.Fprintln(os.Stderr, "cannot read scenarios", c.scen, err)
+		os.Exit(2)
+	}
+	c.n = len(given)
+	return given
+}
+
+func dispatch2(mode string, args []string) bool {
+	switch mode {
+	case "replicas":
+		replicasMode(args)
+	case "failed":
+		failedMode(args)
+	case "checks":
+		checksMode(args)
+	case "crash":
+		crashMode(args)
+	default:
+		return dispatch3(mode, args)
+	}
+	return true
+}
+
+func finishGroups(c *common, rep *Report, groups []*group, keepOf func(g *group) func(h int64, i int) bool) {
+	tw := newTraceWriter(c.out)
+	var metas []map[string]interface{}
+	for i, g := range groups {
+		if g.err != nil {
+			fmt.Fprintln(os.Stderr, "run error:", g.err)
+			os.Exit(2)
+		}
+		rep.count(g.ref)
+		var keep func(h int64, i int) bool
+		if keepOf != nil {
+			keep = keepOf(g)
+		}
+		tw.write(replicaEvents(i+1, "ref", g.ref, keep))
+		for j, t := range g.twins {
+			tw.write(replicaEvents(i+1, g.names[j], t, nil))
+			if t.Dead {
+				rep.Dead++
+				if len(rep.DeadAt) < 10 {
+					rep.DeadAt = append(rep.DeadAt, g.sc.ID+"/"+g.names[j]+": "+t.DeadAt)
+				}
+			}
+		}
+		metas = append(metas, map[string]interface{}{"scenario": g.sc.ID, "twins": g.names, "descr": g.descr})
+		if len(rep.Samples) < 3 {
+			rep.Samples = append(rep.Samples, map[string]interface{}{"scenario": g.sc.ID, "twins": g.descr, "blocks": len(g.ref.Blocks)})
+		}
+	}
+	tw.close()
+	rep.Events = tw.n
+	mf, _ := os.Create(c.out + ".meta.json")
+	_ = json.NewEncoder(mf).Encode(metas)
+	mf.Close()
+	var scs []*vapp.Scenario
+	for _, g := range groups {
+		scs = append(scs, g.sc)
+	}
+	sf, _ := os.Create(c.out + ".scenarios.json")
+	_ = json.NewEncoder(sf).Encode(scs)
+	sf.Close()
+	emit(rep)
+}
+
+// replicasMode (C01): the same blocks on replicas with different identities, roles, job
+// stores, chain-state rotation, and on a second run of the same configuration.
+func replicasMode(args []string) {
+	c, _ := flags("replicas", args)
+	given := loadScenarios(c)
+	rep := newReport("replicas")
+	groups := make([]*group, c.n)
+	parallel(c.n, c.workers, func(i int) {
+		g := &group{}
+		groups[i] = g
+		if given != nil {
+			g.sc = given[i]
+		} else {
+			g.sc = makeScenario(c, i)
+		}
+		g.ref, g.err = vapp.Materialise(g.sc, vapp.RunOpts{Identity: "v1"})
+		if g.err != nil {
+			return
+		}
+		tws := []twin{
+			{"v1-again", vapp.RunOpts{Identity: "v1"}},
+			{"v2-witness", vapp.RunOpts{Identity: "v2", ReinitWit: true}},
+			{"v1-witness-nojobs", vapp.RunOpts{Identity: "v1", ReinitWit: true, ClearJobs: true}},
+			{"outsider-rot", vapp.RunOpts{Identity: "n9", Recent: 1, Every: 2, Cycles: 1}},
+		}
+		for _, tw := range tws {
+			t, err := vapp.Replay(g.sc, g.ref, tw.opts)
+			if err != nil {
+				g.err = err
+				return
+			}
+			g.twins = append(g.twins, t)
+			g.names = append(g.names, tw.name)
+			g.descr = append(g.descr, tw.name)
+		}
+	})
+	order := 0
+	for _, g := range groups {
+		if g.err != nil {
+			continue
+		}
+		for bi, b := range g.ref.Blocks {
+			for _, t := range g.twins {
+				if bi < len(t.Blocks) && t.Blocks[bi].Order != b.Order && t.Blocks[bi].Hash == b.Hash {
+					order++
+				}
+			}
+		}
+	}
+	rep.Extra["latent_order_divergences"] = order
+	finishGroups(c, rep, groups, nil)
+}
+
+// failedMode (C06): a twin gets every block without its failed transactions.
+func failedMode(args []string) {
+	c, _ := flags("failed", args)
+	given := loadScenarios(c)
+	rep := newReport("failed")
+	groups := make([]*group, c.n)
+	failedTotal := 0
+	parallel(c.n, c.workers, func(i int) {
+		g := &group{}
+		groups[i] = g
+		if given != nil {
+			g.sc = given[i]
+		} else {
+			g.sc = makeScenario(c, i)
+		}
+		g.ref, g.err = vapp.Materialise(g.sc, vapp.RunOpts{Identity: "v1"})
+		if g.err != nil {
+			return
+		}
+		ref := g.ref
+		failed := func(h int64, i int) bool {
+			b := ref.Blocks[h-1]
+			return i < len(b.Results) && b.Results[i].Code != 0
+		}
+		t, err := vapp.Replay(g.sc, g.ref, vapp.RunOpts{Identity: "v1", Skip: failed})
+		if err != nil {
+			g.err = err
+			return
+		}
+		g.twins = append(g.twins, t)
+		g.names = append(g.names, "without-failed")
+		nf := 0
+		for _, b := range ref.Blocks {
+			for _, r := range b.Results {
+				if r.Code != 0 {
+					nf++
+				}
+			}
+		}
+		g.descr = append(g.descr, fmt.Sprintf("without-failed (%d failed transactions removed)", nf))
+	})
+	for _, g := range groups {
+		if g.err == nil {
+			for _, b := range g.ref.Blocks {
+				for _, r := range b.Results {
+					if r.Code != 0 {
+						failedTotal++
+					}
+				}
+			}
+		}
+	}
+	rep.Extra["failed_transactions_removed"] = failedTotal
+	finishGroups(c, rep, groups, func(g *group) func(h int64, i int) bool {
+		ref := g.ref
+		return func(h int64, i int) bool { return ref.Blocks[h-1].Results[i].Code == 0 }
+	})
+}
+
+// pool of transactions a mempool could hold: every transaction of the history (past ones
+// are duplicates, future ones are valid and state-changing in the check state) plus extra
+// generated requests
+func checkPool(g *vapp.Scenario, ref *vapp.Transcript, rng *rand.Rand, extra []string) [][]byte {
+	var pool [][]byte
+	for _, b := range ref.Concrete {
+		pool = append(pool, b.Txs...)
+	}
+	for _, ch := range ref.Checked {
+		pool = append(pool, ch...)
+	}
+	gen := vapp.BuildGenesis(g.Genesis)
+	gg := vapp.NewGen(rng.Int63(), g.Genesis)
+	for i := 0; i < 6; i++ {
+		st := gg.Tx(extra[rng.Intn(len(extra))], i%3 == 0)
+		pool = append(pool, gen.Build(st.Req).Bytes)
+	}
+	pool = append(pool, []byte("not a transaction"), []byte("{}"))
+	return pool
+}
+
+// checksMode (C07): twins with CheckTx calls injected at call boundaries.
+func checksMode(args []string) {
+	c, fs := flags("checks", args)
+	_ = fs
+	given := loadScenarios(c)
+	rep := newReport("checks")
+	groups := make([]*group, c.n)
+	schedPerScenario := 4
+	injected := make([]int, c.n)
+	parallel(c.n, c.workers, func(i int) {
+		g := &group{}
+		groups[i] = g
+		if given != nil {
+			g.sc = given[i]
+		} else {
+			g.sc = makeScenario(c, i)
+		}
+		g.ref, g.err = vapp.Materialise(g.sc, vapp.RunOpts{Identity: "v1"})
+		if g.err != nil {
+			return
+		}
+		rng := rand.New(rand.NewSource(c.seed*7919 + int64(i)))
+		pool := checkPool(g.sc, g.ref, rng, familyKinds(c.family))
+		// twin 0: no CheckTx at all
+		t0, err := vapp.Replay(g.sc, g.ref, vapp.RunOpts{Identity: "v1", NoCheck: true})
+		if err != nil {
+			g.err = err
+			return
+		}
+		g.twins, g.names, g.descr = append(g.twins, t0), append(g.names, "no-checktx"), append(g.descr, "no CheckTx at all")
+		for s := 0; s < schedPerScenario; s++ {
+			checks := map[int64]map[int][][]byte{}
+			var d []string
+			nb := len(g.ref.Concrete)
+			if s == 0 {
+				// every position of one block gets one injection
+				h := int64(1 + rng.Intn(nb))
+				checks[h] = map[int][][]byte{}
+				for pos := -1; pos <= len(g.ref.Concrete[h-1].Txs)+2; pos++ {
+					checks[h][pos] = [][]byte{pool[rng.Intn(len(pool))]}
+					injected[i]++
+				}
+				d = append(d, fmt.Sprintf("all positions of block %d", h))
+			} else {
+				k := 1 + rng.Intn(6)
+				for j := 0; j < k; j++ {
+					h := int64(1 + rng.Intn(nb))
+					pos := -1 + rng.Intn(len(g.ref.Concrete[h-1].Txs)+4)
+					if checks[h] == nil {
+						checks[h] = map[int][][]byte{}
+					}
+					m := 1 + rng.Intn(3)
+					for x := 0; x < m; x++ {
+						checks[h][pos] = append(checks[h][pos], pool[rng.Intn(len(pool))])
+						injected[i]++
+					}
+					d = append(d, fmt.Sprintf("h%d@%d x%d", h, pos, m))
+				}
+			}
+			t, err := vapp.Replay(g.sc, g.ref, vapp.RunOpts{Identity: "v1", Checks: checks})
+			if err != nil {
+				g.err = err
+				return
+			}
+			g.twins = append(g.twins, t)
+			g.names = append(g.names, fmt.Sprintf("inject-%d", s))
+			g.descr = append(g.descr, strings.Join(d, " "))
+		}
+	})
+	tot := 0
+	for _, n := range injected {
+		tot += n
+	}
+	rep.Extra["checktx_injected"] = tot
+	finishGroups(c, rep, groups, nil)
+}
+
+// crashMode (C08): twins that die at a call boundary and are restarted from disk.
+func crashMode(args []string) {
+	c, _ := flags("crash", args)
+	given := loadScenarios(c)
+	rep := newReport("crash")
+	groups := make([]*group, c.n)
+	crashes := make([]int, c.n)
+	parallel(c.n, c.workers, func(i int) {
+		g := &group{}
+		groups[i] = g
+		if given != nil {
+			g.sc = given[i]
+		} else {
+			g.sc = makeScenario(c, i)
+		}
+		g.ref, g.err = vapp.Materialise(g.sc, vapp.RunOpts{Identity: "v1"})
+		if g.err != nil {
+			return
+		}
+		rng := rand.New(rand.NewSource(c.seed*104729 + int64(i)))
+		nb := len(g.ref.Concrete)
+		point := func(h int64) string {
+			ntx := len(g.ref.Concrete[h-1].Txs)
+			opts := []string{"begin", "end", "commit"}
+			for k := 0; k < ntx; k++ {
+				opts = append(opts, fmt.Sprintf("deliver:%d", k))
+			}
+			return opts[rng.Intn(len(opts))]
+		}
+		for s := 0; s < 3; s++ {
+			restart := map[int64]string{}
+			k := 1 + rng.Intn(3)
+			if s == 0 {
+				k = 1
+			}
+			for j := 0; j < k; j++ {
+				h := int64(1 + rng.Intn(nb))
+				restart[h] = point(h)
+			}
+			var d []string
+			hs := []int{}
+			for h := range restart {
+				hs = append(hs, int(h))
+			}
+			sort.Ints(hs)
+			for _, h := range hs {
+				d = append(d, fmt.Sprintf("h%d:%s", h, restart[int64(h)]))
+				crashes[i]++
+			}
+			dir, _ := os.MkdirTemp("", "vcrash")
+			t, err := vapp.Replay(g.sc, g.ref, vapp.RunOpts{Identity: "v1", Restart: restart, Dir: dir})
+			os.RemoveAll(dir)
+			if err != nil {
+				g.err = err
+				return
+			}
+			g.twins = append(g.twins, t)
+			g.names = append(g.names, fmt.Sprintf("crash-%d", s))
+			g.descr = append(g.descr, strings.Join(d, " "))
+		}
+	})
+	tot := 0
+	for _, n := range crashes {
+		tot += n
+	}
+	rep.Extra["crash_points"] = tot
+	finishGroups(c, rep, groups, nil)
+}
+
+func familyKinds(family string) []string {
+	return vapp.FamilyKinds(family)
+}
